@@ -7,7 +7,8 @@ ENTRY = {'coq_dir': 'C12',
  'rule': 'two streams of seeded cases (plus the stored witnesses) over one notification stream built from the real NotificationHandle / '
          'NotificationSink / Connection / Substream code between scripted in-memory carriers. (1) SCHEDULER stream (every second case): both '
          'endpoints send; nothing is spawned: each step is one call or ONE poll of one future (sync send, create+poll / poll / drop a '
-         'send_async future, one poll of a Connection task, one handle poll under a cooperative budget of 0..128, protocol opens / shuts down '
+         'send_async future, one poll of a Connection task and one handle poll, each under a cooperative budget of 0..128 operations (or '
+         'unconstrained), protocol opens / shuts down '
          'a Connection, protocol executes or fails to execute a queued ForceClose, carrier gates, transport kill), 20-140 steps quick, 40-500 '
          'thorough, chosen while the case runs so that polls and drops hit futures that are really pending; capacities {1,2,16}x{1,2,3,16}x'
          '{1,4,64}x{1,2,64} (sync, async, handle channel, command channel) and maximum sizes {8,16,64,100,30000,50000} drawn independently per '
@@ -48,9 +49,9 @@ ENTRY = {'coq_dir': 'C12',
                'One scheduler step is one poll of one future: interleavings INSIDE a poll (threads preempted mid-poll on a multi-thread runtime) '
                'are covered only as far as every shared object is a tokio channel whose operations are atomic. Liveness is limited to '
                'C12_force_close_closes and the three per-stage progress theorems (no end-to-end eventual-delivery theorem under a fairness '
-               'assumption; wake-ups are not modelled because the schedule is arbitrary). A Connection poll is modelled with an unlimited '
-               "cooperative budget (the harness polls it under tokio::task::unconstrained): a poll cut short by tokio's budget after 128 channel "
-               'operations, and a close_connection spread over two polls, are not exhibited.',
+               'assumption; wake-ups are not modelled because the schedule is arbitrary). Connection polls are modelled and driven under the cooperative budget of tokio (a poll cut short after k pops of its '
+               'outbound loop, a slot of the handle channel handed over but not yet collected); only close_connection is kept atomic (the '
+               'harness polls a task that has begun to close until it is done, which is one of the real schedules).',
  'assumptions': ['channel capacities >= 1 (tokio panics on 0)',
                  'a stream is set up again only after both Connection tasks of the previous one have finished (guaranteed by '
                  "NotificationProtocol's peer state, C11); each endpoint joins a stream at most once",
